@@ -23,15 +23,20 @@ adds nothing (`Props/C03.lean: expected_union`, `expected_inter`); for differenc
 documented OverlayNG semantics (area − line = area, line − area = the part of the line outside the closed area, …).
 GeometryCollections are read with union semantics (`sideIn`: inside *some* polygon).
 
-`acceptsExact` demands equality on every cell.  When the inputs force new (non-representable) vertices, the
+`acceptsExact` demands equality on every cell; the driver uses it (through `accepts` with `T.exact`) for grid-exact
+inputs (`gridExact`) all of whose intersection points are representable (`needsNewVertex = false`).  Otherwise the
 result cannot be exact; `acceptsTol` then excuses a mismatching cell only inside the tolerance band of the property
 (1e-9 × largest input ordinate; squared distances compared exactly in `Int`):
 
 * a face mismatch must not contain a sample point farther than the tolerance from every input segment and point
   (`faceSamples`: points at 3·tol, 30·tol, len/64, len/8 on that side of the 1-cell, re-located from scratch);
-* a 1-cell / node mismatch is excused iff membership in an input is undetermined within the tolerance (the sample is
-  within tol of a ring of that input, or within tol of – but not exactly on – one of its lines / points) and some
-  resolution of the undetermined bits removes the mismatch, or (for a missing cell) R passes within tol of the sample.
+* a 1-cell / node that is in R but not specified is excused iff the specified result passes within tol of its sample
+  point, or membership in an input is undetermined within the tolerance (`opts`: the sample is within tol of a ring of
+  that input, or within tol of – but not exactly on – one of its lines / points) and some resolution of the
+  undetermined bits makes it specified;
+* a specified 1-cell / node missing from R is excused iff R passes within tol of its sample point (for a node where a
+  segment of A and a segment of B cross at angle θ: within tol / sin θ, the distance by which a tol-perturbation of the
+  inputs moves that crossing, `crossSin2`), or some resolution of the undetermined bits makes it unspecified.
 
 Core Lean only.
 -/
